@@ -233,6 +233,10 @@ def verify_unit(name, canary=False):
            "smt_ms": (js.get("times-ms", {}).get("smt", {}) or {}).get("total"),
            "total_ms": (js.get("times-ms", {}) or {}).get("total"),
            "verus": js.get("verus", {}), "fn_times": fn_times(js)}
+    # a verifier that crashed (solver died, internal panic) has decided nothing
+    crashed = any(("panicked at" in l) or ("unexpected output from solver" in l) for l in res.get("raw", []))
+    if crashed and not others:
+        others = [{"message": "verus crashed: " + " | ".join(l for l in res.get("raw", []) if "panicked" in l or "unexpected output" in l)[:300], "spans": []}]
     if others or (res["json"] is None) or vr.get("encountered-vir-error"):
         msg = "; ".join((d.get("message", "")[:300] + " @" + ",".join(str(s["line_start"]) for s in d.get("spans", [])[:2]))
                         for d in others[:5]) or "\n".join(res["raw"][-15:])
